@@ -233,6 +233,7 @@ struct ThrEngine : Engine {
 		pj["yield_points"] = (int64_t)g_thr.yield_points; pj["preemptions"] = (int64_t)g_thr.switches; pj["shared_accesses"] = (int64_t)g_thr.shared_accesses;
 		pj["instrumented_accesses"] = (int64_t)g_thr.accesses; pj["function_entries"] = (int64_t)g_thr.func_entries; pj["shadow_overflow"] = (int64_t)thr_shadow_overflow();
 		pj["preempt_in_ran_array"] = (int64_t)g_thr.preempt_in_ran_array; pj["preempt_in_zip"] = (int64_t)g_thr.in_zip_overlap; pj["preempt_in_html_export"] = (int64_t)g_thr.in_html_export_overlap;
+		for (auto & o2 : ops.a) { std::string kk = o2.gets("k", "CONV"); if (kk != "CONV") pj["ops_" + kk] = pj.geti("ops_" + kk) + 1; }
 		res["probes"] = pj;
 		res["schedule_hash"] = hex64(g_thr.schedule_hash);
 		if (verbose) {
